@@ -53,10 +53,10 @@ type scen struct {
 	future int    // genesis N ms in the future (0 = in the past)
 	slow   int    // DA answers after N ms (0 = fast)
 	lazy   bool
-	bt     int // block time ms
-	span   int // ms between start and the stop request
-	prod   int // full: ms the producer runs first
-	xexec  int // full: the execution layer takes N ms per call (2N for SetFinal) and gives up with ctx.Err() when cancelled
+	bt     int    // block time ms
+	span   int    // ms between start and the stop request
+	prod   int    // full: ms the producer runs first
+	xexec  int    // full: the execution layer takes N ms per call (2N for SetFinal) and gives up with ctx.Err() when cancelled
 	daf    string // DA submission faults: "" none | reject (always "already in mempool") | flaky (rejected, then accepted, alternating) | error (generic error on two calls of three)
 	dabt   int    // DA block time ms (0 = the block time); the submitters' retry back-off is derived from it
 	ttl    int    // DA mempool TTL in DA blocks (0 = 1): a rejected submission is retried after dabt*ttl
